@@ -327,7 +327,12 @@ def run(prog, ctx):
         why = "is_already_calculated%s vs add_level%s on %s / %s, add_level under %s" % (
             [show(x) for x in k1], [show(x) for x in k2], src(iac[0].func.value), src(adl[0].func.value), [show(g) for g in guards][-2:])
         if ok:
-            ok = k1[0] == ("copy", "tuple", ("n", "temp")) and k1[1] == ("copy", "tuple", ("n", cg.params[1]))
+            # role of the coarsened vector: the local created as a copy list(<level vector parameter>)
+            copies = {b.stmt.targets[0].id for bs in Terms(cg.node, max_depth=0).env.bindings.values() for b in bs
+                      if b.kind == "assign" and b.value is not None and isinstance(b.stmt, ast.Assign) and isinstance(b.stmt.targets[0], ast.Name)
+                      and tmc.term(b.value) in (("copy", "list", ("n", cg.params[1])), ("call", ("a", ("n", cg.params[1]), "copy"), (), ()))}
+            ok = k1[0][0] == "copy" and k1[0][1] == "tuple" and k1[0][2][0] == "n" and k1[0][2][1] in copies \
+                and k1[1] == ("copy", "tuple", ("n", cg.params[1]))
             why = "the pair is not (tuple(coarsened), tuple(original level vector))"
     ctx.check(ok, "C07.D5", R.key_of(cg, "collision-pair"), cg.loc(),
               "a coarsened level vector is recorded with its original exactly when it was not recorded for another one",
@@ -413,10 +418,22 @@ def check_coarsening_siblings(prog, ctx):
                 return ("c", "#")
             return tuple(abstract(x) for x in t)
         return t
+    # role, not name: a local assigned a comparison in both arms of an `if self.version == k: ... else: ...`
     groups = {}
-    for st in walk_local(cg.node):
-        if isinstance(st, ast.Assign) and isinstance(st.targets[0], ast.Name) and st.targets[0].id in ("no_forward_problem",):
-            groups.setdefault(st.targets[0].id, []).append(st)
+    k = 0
+    for iff in walk_local(cg.node):
+        if not (isinstance(iff, ast.If) and iff.orelse and any(isinstance(x, ast.Attribute) and x.attr == "version" for x in ast.walk(iff.test))):
+            continue
+        def arm(block):
+            out = {}
+            for st in block:
+                if isinstance(st, ast.Assign) and len(st.targets) == 1 and isinstance(st.targets[0], ast.Name) and tm.term(st.value)[0] == "cmp":
+                    out[st.targets[0].id] = st
+            return out
+        a1, a2 = arm(iff.body), arm(iff.orelse)
+        for nm in sorted(set(a1) & set(a2)):
+            k += 1
+            groups["condition#%d" % k] = [a1[nm], a2[nm]]
     for name, sts in groups.items():
         if len(sts) < 2:
             continue
